@@ -24,10 +24,18 @@ RULE = ("catalogue of pairs of queries that differ in one component (types 1/257
         "upstream] with lazy_cache_ttl > 0 and = 0, 0..4 redirect rules (several aliases per target, a target that is "
         "itself redirected, no rule as control): store, back-date the entry past its message TTL, ask aliases and "
         "targets, join every lazy update, and record question / owner names / address of every reply and what the "
-        "store holds under the key of every name. A pair is non-trivial when both queries are "
+        "store holds under the key of every name; the chain [a plugin that has already put a response into the context; "
+        "real dual_selector prefer_ipv4 / prefer_ipv6 or none; real Cache; fake upstream] with and without lazy mode: the "
+        "response present on entry answers the same name with another type (AAAA first, then A, and the reverse), "
+        "another class, another name or the query itself, on a miss, a fresh hit and a stale hit (the lazy update works on "
+        "it), the selector's reference sub-query carrying it to the cache under the rewritten type; every execution of "
+        "the cache and every lazy update is joined, then the question and (owner, rrtype) of the records of every reply "
+        "and of whatever the store holds under the key of every (name, A/AAAA/TXT, IN/CH) are recorded; histories also "
+        "record name/type/class of the question section of every served cached answer. A pair is non-trivial when both queries are "
         "cacheable and differ in exactly one of name/type/class/AD/CD/DO; a history when it has a hit and at least two "
         "cacheable non-hits; a redirect+lazy run when a background update followed a redirected stale hit and a "
-        "query came after it; distinct = distinct Gallina literal")
+        "query came after it; a chain run when a response was present on entry or the selector ran its reference "
+        "sub-query and a plain query came last; distinct = distinct Gallina literal")
 ASSUMPTIONS = [
     "\"the query\" is the message Cache.Exec reads (qCtx.Q()): NewContext replaces the client's OPT by a fresh one, so DO "
     "is part of the key only as far as a plugin in front of the cache sets it on qCtx.QOpt() "
@@ -56,7 +64,8 @@ LEVEL_TEXT = ("Theorems in coq/Properties/C04.v: the key built by getMsgKey is i
               "stored by an earlier execution whose query has the same name, type, class, AD, CD and DO, and carries the "
               "query's own question; whatever the store holds under a key answers a query with that key (a lazy background update "
               "is the step Query q r r for the query it was started for, and Judge.C04.lazy_run runs redirect + lazy cache "
-              "that way); the same question is served the stored answer; the Judge's oracle same_qf_b is proved "
+              "that way, and Judge.C04.chain_run runs a response already present in the context and the dual_selector's "
+              "sub-queries as such steps); the same question is served the stored answer; the Judge's oracle same_qf_b is proved "
               "equivalent to the theorems' notion. The model is run inside Coq on every case the Go driver observed.")
 LEVEL_NOTE = ("Trusted: Coq kernel + vm_compute; hand-written model tied to the code by the differential run and Gen/Constants.v; "
               "Go string equality of map keys; IsEdns0/Do as modelled. No axioms. Kept refutations show the pre-repair key "
